@@ -21,6 +21,7 @@ pub mod c21;
 pub mod c22;
 pub mod c26;
 pub mod c28;
+pub mod c36;
 
 fn one(_: Tier) -> usize { 1 }
 
@@ -45,6 +46,7 @@ pub fn all() -> Vec<CheckDef> {
         CheckDef { id: "C22", shards: one, run: c22::run, replay: Some(c22::replay) },
         CheckDef { id: "C26", shards: one, run: c26::run, replay: Some(c26::replay) },
         CheckDef { id: "C39", shards: one, run: c39::run, replay: Some(c39::replay) },
+        CheckDef { id: "C36", shards: one, run: c36::run, replay: Some(c36::replay) },
         CheckDef { id: "C28", shards: one, run: c28::run, replay: Some(c28::replay) },
     ]
 }
